@@ -423,6 +423,9 @@ int main(int argc, char** argv) {
             }
             vf::note(vf::mix64(w * 65536 + vi + 1), true);
             ++d1;
+            if (c.samples.size() < 4 && (vi % 16381) == (uint32_t)(5 + c.worker))
+                vf::sample(std::string("D1 ") + layout::words()[w].name + " := " + vf::hex(v) + " from " + std::to_string(n_states) +
+                           " generated states: read-back " + vf::hex(layout::read(w, layout::write(w, gen_plain_state(1), v))));
         }
     }
     vf::klass("(word, value) pairs enumerated", d1);
@@ -449,7 +452,7 @@ int main(int argc, char** argv) {
             RUN(sub_D2((uint16_t)op, x, seed), body_of("D2", op, x, seed));
             ++d2;
         }
-        if (c.samples.size() < 5 && (op % 997) == (uint32_t)c.worker) {
+        if (c.samples.size() < 7 && (op % 97) == (uint32_t)c.worker) {
             Teakra::Disassembler::ArArpSettings aa{{0x2C61, 0x8E25}, {0x0421, 0x2462, 0x48A3, 0x6CE0}};
             vf::sample(info.form + " " + vf::hex(op) + ": " + Teakra::Disassembler::Do((uint16_t)op, 0, aa));
         }
